@@ -1,6 +1,6 @@
 (** Transcription of anytree/search.py and anytree/cachedsearch.py. *)
 Require Import AT.Model.Base AT.Model.Rose AT.Model.Iter.
-Open Scope Z_scope.
+Local Open Scope Z_scope.
 
 (** _findall(node, filter_, stop, maxlevel, mincount, maxcount):
       result = tuple(PreOrderIter(node, filter_, stop, maxlevel))
